@@ -14,6 +14,8 @@ Proof.
     destruct (os_ref s) eqn:E; cbn; rewrite ?E; auto.
   - destruct p as [|[|p]]; [cbn; auto| |lia]. unfold fault_actions, run_actions. cbn [program firstn compensation app fold_left].
     destruct (os_ref s) eqn:E; cbn; rewrite ?E; auto.
+  - destruct p as [|[|[|p]]]; [cbn; auto| | |lia]; unfold fault_actions, run_actions; cbn [program firstn compensation app fold_left];
+      destruct (os_ref s) eqn:E; cbn; rewrite ?E; auto.
 Qed.
 
 Corollary fault_consistent o v s p :
@@ -28,12 +30,18 @@ Theorem crash_before_or_after o v s p :
   p <= List.length (program o) ->
   let s' := run_actions v (os_ref s) s (crash_actions o p) in
   (os_entries s' = os_entries s \/ (os_entries s' = S (os_entries s) /\ os_latest s' = Some v)) /\
-  (os_ref s' = os_ref s \/ os_ref s' = Some v \/ o = OpEntry).
+  (os_ref s' = os_ref s \/ os_ref s' = Some v \/ o = OpEntry \/ (p = 1 /\ exists b, o = OpRebaseWithEntry b /\ os_ref s' = Some b)).
 Proof.
   destruct o; cbn [program List.length]; intros Hp; unfold crash_actions, run_actions.
   - destruct p as [|[|p]]; [cbn; auto|cbn; auto|lia].
   - destruct p as [|[|[|p]]]; cbn; auto; lia.
   - destruct p as [|[|[|p]]]; cbn; auto; lia.
+  - destruct p as [|[|[|[|p]]]]; cbn [program firstn fold_left apply_action os_ref os_latest os_entries].
+    + auto.
+    + split; [auto|]. right. right. right. split; [reflexivity|]. exists b. auto.
+    + auto.
+    + auto.
+    + cbn in Hp. lia.
 Qed.
 
 (** The uninterrupted run: exactly one entry, ref at the new value (and for OpEntry untouched). *)
